@@ -2186,6 +2186,11 @@ def classify(prog, line):
             # the context of a hole broke the hole's contract and the offending value sits in typed code
             return "violation", "Blame-:hole-contract-broken-by-typed-code"
         if where == "unknown" and pol == "+":
+            # an annotation that is neither a typed block's own nor a hole's.  Inside a typed region it is an
+            # inner annotation that the typechecker verified (its failure is the typed code's); outside every
+            # typed region it is untyped code's own contract failing on untyped code's value: not C01's matter
+            if lab is not None and lab[0] == "main" and region_of(prog, lab[1], lab[2]) != "typed":
+                return "allowed-error", tag + ":outside-typed-code"
             return "violation", tag
         return "allowed-error", tag
     if cls in BAD_CLASSES:
